@@ -75,7 +75,7 @@ func intern(t *Term) *Term {
 		case SStr:
 			sb.WriteString(t.SV)
 		}
-	case "var", "uf":
+	case "var", "uf", "str.in_re":
 		sb.WriteString(t.SV)
 	}
 	for _, a := range t.Args {
@@ -1013,6 +1013,14 @@ func ToInt(s *Term) *Term {
 	return mk("str.to_int", SInt, s)
 }
 
+// InRe: membership of s in the regular expression given as SMT-LIB text; goRe decides constants.
+func InRe(s *Term, smtRe string, goRe func(string) bool) *Term {
+	if s.IsConst() && goRe != nil {
+		return MkBool(goRe(s.SV))
+	}
+	return intern(&Term{Op: "str.in_re", Sort: SBool, Args: []*Term{s}, SV: smtRe})
+}
+
 // StrLt is the abstract strict total order on strings (A-ORDER); constants compare natively.
 func StrLt(a, b *Term) *Term {
 	if a == b {
@@ -1186,6 +1194,10 @@ func smtExpr(t *Term, named map[int]bool) string {
 				rec(a, false)
 			}
 			sb.WriteByte(')')
+		case "str.in_re":
+			sb.WriteString("(str.in_re ")
+			rec(t.Args[0], false)
+			sb.WriteString(" " + t.SV + ")")
 		default:
 			sb.WriteString("(" + t.Op)
 			for _, a := range t.Args {
